@@ -13,6 +13,8 @@ def values_for(t, rng, n, budget=4):
     """n values of type t (deduplicated, boundary-biased); for sum types every variant appears"""
     out, seen = [], set()
     forced = []
+    if any(getattr(x, 'heavy', False) for x in t.walk()):
+        return values_for_light(t, rng, n, budget)
     if isinstance(t, Sum):
         forced = list(range(t.nvariants()))
     elif isinstance(t, Adt) and t.d.is_enum:
@@ -27,6 +29,42 @@ def values_for(t, rng, n, budget=4):
         v = t.gen(rng, budget)
         if v not in seen:
             seen.add(v); out.append(v)
+    return out
+
+
+def values_for_light(t, rng, n, budget):
+    """values of a type that contains a heavy sequence (megabyte-sized items): the heavy sequences stay empty"""
+    import universe
+    saved = universe.Seq.gen
+    def gen(self, rng_, budget_):
+        return '[]' if getattr(self, 'heavy', False) else saved(self, rng_, budget_)
+    universe.Seq.gen = gen
+    try:
+        out = []
+        for _ in range(4 * n):
+            v = t.gen(rng, budget)
+            if v not in out: out.append(v)
+            if len(out) >= n: break
+        return out
+    finally:
+        universe.Seq.gen = saved
+
+
+def big_values(u):
+    """(type index, value, what) for the big families: an item above 1 MiB, two blocks above 64 KiB of which the second
+    starts beyond byte 65536, a stream above 2 MiB"""
+    out = []
+    for i, t in enumerate(u.types):
+        r = t.rust()
+        if r == 'Vec<[u64; 131073]>':
+            item = '[' + ''.join('%d,' % ((k * 0x9E3779B97F4A7C15 + 1) % (1 << 64)) for k in range(131073)) + ']'
+            out.append((i, '[' + item + ',' + item.replace('1,', '3,', 1) + ',]', 'item-above-1MiB'))
+        elif r == 'KP2<Vec<u64>, Vec<u8>>':
+            a = '[' + ''.join('%d,' % (k * 2654435761 % (1 << 64)) for k in range(20000)) + ']'
+            b = '[' + ''.join('%d,' % (k * 7 % 251) for k in range(70000)) + ']'
+            out.append((i, '{' + a + ',' + b + ',}', 'two-blocks-above-64KiB'))
+        elif r == 'Vec<u64>':
+            out.append((i, '[' + ''.join('%d,' % (k * 2654435761 % (1 << 64) | 1) for k in range(300000)) + ']', 'stream-above-2MiB'))
     return out
 
 
@@ -114,9 +152,10 @@ def pad_sweep(u, case):
 
 
 def long_cases(u, case, quick):
-    """lengths that cross the byte boundaries of the length word (255/256/257, 65535/65536/65537; 2^24+1 in the
-    thorough tier) for strings, zero-copy sequences and deep sequences"""
-    lens = [255, 256, 257, 65535, 65536, 65537] + ([] if quick else [(1 << 24) + 1])
+    """lengths that cross the byte boundaries of the length word (255/256/257, 65535/65536/65537; 2^22+1 in the
+    thorough tier: the compiled model driver overflows its stack on a list of 2^24 bytes) for strings, zero-copy sequences
+    and deep sequences"""
+    lens = [255, 256, 257, 65535, 65536, 65537] + ([] if quick else [(1 << 22) + 1])
     want = {'String': lambda n: 's"%s"' % ('61' * n), 'Box<[u16]>': lambda n: '[' + ''.join('%d,' % (k & 0xffff) for k in range(n)) + ']',
             'Vec<u64>': lambda n: '[' + ''.join('%d,' % (k * 2654435761 % (1 << 64)) for k in range(n)) + ']',
             'Vec<String>': lambda n: '[' + ''.join('s"%02x",' % (0x61 + k % 26) for k in range(n)) + ']',
@@ -185,6 +224,8 @@ def gen_cases(prop, u, seed, tier, probe=None):
     elif prop in ('C01', 'C02'):
         pad_sweep(u, case)
         long_cases(u, case, quick)
+        for (i, v, what) in big_values(u):
+            case(i, 0, '-', v, 'big-' + what)
         for i, t in enumerate(u.types):
             for v in values_for(t, rng, nvals):
                 case(i, 0, '-', v, 'roundtrip')
@@ -270,7 +311,15 @@ def gen_cases(prop, u, seed, tier, probe=None):
             for k in cuts:
                 if not 0 <= k < n: continue
                 for l in ('full', 'map', 'mem', 'mmap'):
-                    cs.add('fload %d %s %s' % (i, l, hx[:2 * k] if k else '-'), kind='fload', ti=i, loader=l, cut=k, total=n, family='file-trunc-' + l)
+                    lf = l if l in ('full', 'mem') else '%s:%d' % (l, (k + i) % 8)      # the mapping flags vary (all 8 combinations)
+                    cs.add('fload %d %s %s' % (i, lf, hx[:2 * k] if k else '-'), kind='fload', ti=i, loader=l, cut=k, total=n, family='file-trunc-' + l)
+        # big files, and the mapping flags: the last bytes of a file above 2 MiB are cut off, the mapping is asked for with and
+        # without flags
+        for (i, v, what) in big_values(u):
+            if what != 'stream-above-2MiB': continue
+            for cut in ([1, 8, 15, 16] if quick else [1, 2, 7, 8, 9, 15, 16, 17, 24, 1000, 4096]):
+                for l in (['full', 'map:0', 'map:1'] if quick else ['full', 'map:0', 'map:1', 'map:7', 'mem', 'mmap:1']):
+                    cs.add('floadc %d %s %d %s' % (i, l, cut, v), kind='fload', ti=i, loader=l.split(':')[0], cut=-cut, total=2400000, family='big-file-trunc-' + l.replace(':', '-flags'))
     elif prop == 'C12':
         plan = []
         for i, t in enumerate(u.types):
@@ -484,11 +533,20 @@ def gen_cases(prop, u, seed, tier, probe=None):
                 v = '[s"%s",s"6869",]' % ('41' * n)
                 for l in loaders:
                     cs.add('load %d %s 0 %s' % (i, l, v), kind='load', ti=i, val=v, loader=l, flags=0, family='residue-' + l)
+        # big files (above 2 MiB; an item above 1 MiB), every loader, with and without mapping flags
+        for (i, v, what) in big_values(u):
+            if what == 'two-blocks-above-64KiB': continue
+            for l, f in [('full', 0), ('mem', 0), ('mmap', 0), ('mmap', 1), ('map', 0), ('map', 1)] + ([] if quick else [('map', 7), ('mmap', 6)]):
+                cs.add('load %d %s %d %s' % (i, l, f, v), kind='load', ti=i, val=v, loader=l, flags=f, family='big-load-' + l)
     elif prop == 'C18':
         for i, t in enumerate(u.types):
             for v in values_for(t, rng, nvals):
                 case(i, 0, '-', v, 'plain')
                 cs.add('schema %d %s' % (i, v), kind='schema', ti=i, val=v, family='schema')
+        # rows above 64 KiB, one starting beyond byte 65536; an item above 1 MiB
+        for (i, v, what) in big_values(u):
+            if what == 'stream-above-2MiB' and quick: continue
+            cs.add('schema %d %s' % (i, v), kind='schema', ti=i, val=v, family='big-schema')
     elif prop == 'C13':
         for k_, t in enumerate(u.slice_elems):
             cs.add('stype %d %s' % (k_, t.term()), kind='stype', ti=None)
@@ -510,6 +568,10 @@ def gen_cases(prop, u, seed, tier, probe=None):
                 # a transient failure: the sink refuses one call after k bytes and accepts everything afterwards
                 # (it obeys the Write contract); the serializer must stop at the first error all the same
                 cs.add('wfail %d k=%d,once=1,ff=0 %s' % (i, k, v), kind='wfail', ti=i, val=v, k=k, total=n, ff=False, family='transient-fail-at-k')
+                # the refusal reports another kind of error (only Interrupted may be retried): WouldBlock, TimedOut, BrokenPipe,
+                # WriteZero, OutOfMemory, UnexpectedEof, ConnectionReset — once, or for good
+                wk = 3 + (k + i) % 7
+                cs.add('wfail %d k=%d,once=%d,wk=%d,m=%s,ff=0 %s' % (i, k, k % 2, wk, rng.choice(['-', '4']), v), kind='wfail', ti=i, val=v, k=k, total=n, ff=False, family='fail-kind%d-at-k' % wk)
                 if k % 3 == 0:
                     # a sink that accepts no more bytes without reporting an error: write returns Ok(0) (write_all turns it into WriteZero)
                     cs.add('wfail %d k=%d,zero=1,ff=0 %s' % (i, k, v), kind='wfail', ti=i, val=v, k=k, total=n, ff=False, family='write-zero-at-k')
@@ -545,6 +607,14 @@ def gen_cases(prop, u, seed, tier, probe=None):
                 pat = rng.choice(['one', 'p3i', 'mix', 'r%d' % rng.randrange(100), 'p7b'])
                 kk = ('eof%d' % k) if rng.random() < 0.3 else str(k)
                 cs.add('rchunk %d %s %s %s' % (i, pat, kk, v), kind='rchunk', ti=i, val=v, k=k, total=n, family='fail-at-k')
+        for (i, v, what) in big_values(u):
+            if what == 'stream-above-2MiB' and quick: continue
+            n = {'item-above-1MiB': 2 * 8 * 131073 + 8, 'two-blocks-above-64KiB': 230000, 'stream-above-2MiB': 2400000}[what]
+            for pat in ['all', 'p4093', 'mix']:
+                cs.add('rchunk %d %s - %s' % (i, pat, v), kind='rchunk', ti=i, val=v, k=None, total=n, family='big-chunking')
+            for k in [100, 1 << 16, (1 << 20) + 50, n // 2, n - 9]:
+                if k >= n: continue
+                cs.add('rchunk %d %s %s %s' % (i, rng.choice(['all', 'p4093']), ('eof%d' % k) if k % 2 else str(k), v), kind='rchunk', ti=i, val=v, k=k, total=n, family='big-fail-at-k')
     elif prop == 'C16':
         for k, t in enumerate(u.slice_elems):
             cs.add('stype %d %s' % (k, t.term()), kind='stype', ti=None)
